@@ -239,7 +239,9 @@ def collect(
         )
     )
     new._cache.derived_from = table._cache.derived_from | {new._ast}
-    new._cache.partition_by = [preprocess_arg(col, new) for col in table._cache.partition_by]
+    # The UUIDs of the columns are preserved, so the grouping state can be re-applied to the new table.
+    if partition_by := [new._cache.cols[uid] for uid in table._cache.partition_by if uid in new._cache.cols]:
+        new = new >> group_by(*partition_by)
 
     return new
 
